@@ -15,7 +15,7 @@ RULE = (
     "permuted definition order, mixed with other statements and with calls that bind the parameters to values "
     "different from the header's. Oracle: the independent meaning extraction of the parsed circuit (main body, and "
     "every macro body under distinguishable probe arguments) equals the reference meaning of the model; the same "
-    "after expand_macros and after fill_in_let; and deleting all other scopes' copies never changes the meaning of "
+    "after expand_macros, after fill_in_let and after fill_in_map (when it answers); and deleting all other scopes' copies never changes the meaning of "
     "the remaining scope (metamorphic). Non-trivial = at least one pair of textually identical gate statements in "
     "different scopes whose reference meanings differ. distinct = distinct program text."
 )
@@ -206,6 +206,28 @@ def check(case):
                 raise Violation("let-filled-meaning", f"expected {show(m_ref)}\ngot      {show(mf)}\n--- program:\n{text}")
         except extract.ExtractError as e:
             raise Violation("let-filled-unresolvable", f"{e}\n--- program:\n{text}")
+    # alias fill-in on the unexpanded circuit may refuse (a macro body that indexes one of its
+    # parameters), but when it answers, main body AND macro bodies must still mean the same
+    from jaqalpaq.core.algorithm.fill_in_map import fill_in_map
+
+    st_, g1 = guard(fill_in_map, c, what="fill_in_map")
+    if st_ == "ok":
+        try:
+            mg = extract.meaning(g1)
+            if not same_meaning(m_ref, mg):
+                raise Violation("map-filled-meaning", f"expected {show(m_ref)}\ngot      {show(mg)}\n--- program:\n{text}")
+            exg = extract.Extractor(g1)
+            for m in prog["macros"]:
+                probe = _probe_args(_infer_roles(prog, m), m["params"], ref)
+                try:
+                    mm_ref = ref.macro_meaning(m["name"], probe)
+                except Invalid:
+                    continue
+                mm_g = exg.macro_meaning(m["name"], probe)
+                if not same_meaning(mm_ref, mm_g):
+                    raise Violation("map-filled-macro-body-meaning", f"macro {m['name']} probe {probe}\nexpected {show(mm_ref)}\ngot      {show(mm_g)}\n--- program:\n{text}")
+        except extract.ExtractError as e:
+            raise Violation("map-filled-unresolvable", f"{e}\n--- program:\n{text}")
     # metamorphic: drop every macro (and calls to them): meaning of remaining main-body statements unchanged
     mnames = {m["name"] for m in prog["macros"]}
     if mnames:
